@@ -80,6 +80,17 @@ Theorem kron_factorisation_3d : forall (A B C : Type) (P1 : list A) (P2 : list B
 Proof. exact (@tensor3_l). Qed.
 Print Assumptions kron_factorisation_3d.
 
+(* layout of scipy.sparse.kron as modelled (Model.kron): entry (i1*nB + i2, j1*mB + j2) of
+   kron(A,B) is A[i1,j1]*B[i2,j2]; together with kron_factorisation_2d/3d: the Kronecker path
+   places the products of the 1D Gram entries where the tensor-product numbering (C order,
+   last direction fastest) expects them. *)
+Theorem kron_get : forall (A B : list (list Qc)) mB i1 i2 j1 j2,
+  (forall rb, In rb B -> length rb = mB) ->
+  (i1 < length A)%nat -> (i2 < length B)%nat -> (j1 < length (nth i1 A []))%nat -> (j2 < mB)%nat ->
+  mget (kron A B) (i1 * length B + i2) (j1 * mB + j2) = mget A i1 j1 * mget B i2 j2.
+Proof. exact kron_get_l. Qed.
+Print Assumptions kron_get.
+
 (* the Laplace integrand grad u . grad v: K1 (x) M2 + M1 (x) K2  (bsp_stiffness_2d) *)
 Theorem kron_stiffness_2d : forall (A B : Type) (P1 : list A) (P2 : list B)
   (w1 u1 v1 du1 dv1 : A -> Qc) (w2 u2 v2 du2 dv2 : B -> Qc),
